@@ -71,6 +71,15 @@ func c18Check(c c18Case) (f *vh.Failure) {
 	if !sameMsg(got, want) {
 		return vh.Failf("proto-roundtrip", "protobuf round trip: wrote %+v, read %+v (index %d)", c.Msg, got, c.Index)
 	}
+	// a decoded message is a value of its own: decoding the next message of the log (here: the
+	// other generated message) does not change it (seed C18p: a pooled intermediate message whose
+	// Servers slice the result shared)
+	if obytes, err := proto.Marshal(c.Prev.ProtoMessage()); err == nil {
+		other := NewMessageFromBytes(append([]byte{'p'}, obytes...), c.Index+1)
+		if !sameMsg(got, want) {
+			return vh.Failf("decoded-message-changed-by-later-decode", "after decoding %+v, the message decoded before it reads %+v, it was written and first read as %+v", other, got, want)
+		}
+	}
 	// decode(encode(decode(x))) is a fixpoint
 	p2, _ := proto.Marshal(got.ProtoMessage())
 	if got2 := NewMessageFromBytes(append([]byte{'p'}, p2...), c.Index); !sameMsg(got2, got) {
